@@ -105,24 +105,15 @@ func (sess *UserSession) Move(w *imapserver.MoveWriter, numSet imap.NumSet, dest
 		destUIDs.AddNum(appendData.UID)
 		expunged[msg] = struct{}{}
 	})
-	seqNums := sess.mailbox.expungeLocked(expunged)
+	// The expunges are queued in the mailbox tracker for all sessions,
+	// including this one: they're sent when the command completes
+	sess.mailbox.expungeLocked(expunged)
 
-	err = w.WriteCopyData(&imap.CopyData{
+	return w.WriteCopyData(&imap.CopyData{
 		UIDValidity: dest.uidValidity,
 		SourceUIDs:  sourceUIDs,
 		DestUIDs:    destUIDs,
 	})
-	if err != nil {
-		return err
-	}
-
-	for _, seqNum := range seqNums {
-		if err := w.WriteExpunge(sess.mailbox.tracker.EncodeSeqNum(seqNum)); err != nil {
-			return err
-		}
-	}
-
-	return nil
 }
 
 func (sess *UserSession) Poll(w *imapserver.UpdateWriter, allowExpunge bool) error {
